@@ -173,6 +173,11 @@ func TestC15(t *testing.T) {
 		}
 	}
 
+	// several connections of one process written at the same time
+	for i := 0; i < r.Pick(18, 400); i++ {
+		cases = append(cases, mon.CaseSpec{Name: "conc", Spec: spec{Kind: "conc", Tr: []string{"ipc", "tcp", "tls+tcp"}[i%3], Sizes: []int{8 + rnd.Intn(12)}}})
+	}
+
 	r.Run(cases, func(c *mon.Case) {
 		sp := c.Spec.(spec)
 		defer func() {
@@ -192,6 +197,8 @@ func TestC15(t *testing.T) {
 			caseHsDev(c, sp)
 		case "ws":
 			caseWS(c, sp)
+		case "conc":
+			caseConc(c, sp)
 		}
 		hx.LedgerCheck(c)
 	})
